@@ -263,7 +263,7 @@ class CLEngine(Engine):
             ops += ["conn"]
         if w.next_timer() is not None:
             ops += ["timer", "timer", "wait"]
-        ops += ["err", "hold", "down", "up", "leader", "coord", "mderr", "refuse", "decom"]
+        ops += ["err", "hold", "down", "up", "leader", "coord", "mderr", "refuse", "refusesync", "decom"]
         if self.cluster.held:
             ops += ["release", "release"]
         if w.live_conns():
@@ -307,7 +307,7 @@ class CLEngine(Engine):
             return ["release", draw(st.integers(0, 5))]
         if op in ("drop", "chunk"):
             return [op, draw(st.integers(0, 6)), draw(st.integers(0, 30))]
-        if op in ("down", "refuse", "decom"):
+        if op in ("down", "refuse", "refusesync", "decom"):
             return [op, draw(st.integers(1, nb))]
         if op == "up":
             return ["up", draw(st.integers(1, nb)), draw(st.booleans())]
@@ -596,6 +596,10 @@ class CLEngine(Engine):
         elif op == "refuse":
             cl.refusing[step[1]] = not cl.refusing.get(step[1])
             self.labels.add("fault:refuse-connects")
+        elif op == "refusesync":
+            # the endpoint fails the attempt before connect() returns (an already-failed Deferred)
+            cl.refusing[step[1]] = False if cl.refusing.get(step[1]) else "sync"
+            self.labels.add("fault:refuse-connects-synchronously")
 
     def _timer(self):
         self.evseq += 1
